@@ -78,6 +78,7 @@ class Env:
             eng.template_builtins.append(lib)
             self.engines[dbg] = eng
         self.channel_unavailable: Dict[str, int] = {}
+        self.hangs = 0
 
 
 _env: Optional[Env] = None
@@ -107,6 +108,9 @@ def tok_rows(tokens) -> List[Dict[str, Any]]:
 
 def err_code(e: BaseException) -> str:
     from django.template.exceptions import TemplateSyntaxError
+    if isinstance(e, Hang):
+        env().hangs += 1
+        return "hang"
     if isinstance(e, TemplateSyntaxError):
         msg = str(e)
         if "unterminated {% tag" in msg:
@@ -115,6 +119,39 @@ def err_code(e: BaseException) -> str:
             return "unterminated-string"
         return "TemplateSyntaxError"
     return "exception:" + type(e).__name__
+
+
+class Hang(Exception):
+    pass
+
+
+HANG_BUDGET_S = 4.0      # a lexer call takes ~50 microseconds; > 10^4 times that is a hang
+MAX_HANGS = 4
+
+
+@contextmanager
+def watchdog():
+    """SIGALRM budget around one real-code call (main thread only) - an endless loop in the
+    hand-over logic would otherwise eat the machine."""
+    import signal
+    import threading
+    if threading.current_thread() is not threading.main_thread():
+        yield
+        return
+
+    def onalarm(signum, frame):
+        raise Hang()
+    old = signal.signal(signal.SIGALRM, onalarm)
+    signal.setitimer(signal.ITIMER_REAL, HANG_BUDGET_S)
+    try:
+        yield
+    finally:
+        signal.setitimer(signal.ITIMER_REAL, 0)
+        signal.signal(signal.SIGALRM, old)
+
+
+def too_many_hangs() -> bool:
+    return env().hangs >= MAX_HANGS
 
 
 @contextmanager
@@ -156,7 +193,8 @@ def observe_parse(text: str, ml: bool) -> Dict[str, Any]:
     try:
         with tag_re_mode(ml):
             try:
-                toks = tp.parse_template(text)
+                with watchdog():
+                    toks = tp.parse_template(text)
                 obs = {"err": "", "toks": tok_rows(toks)}
             except Exception as e:  # noqa: BLE001
                 obs = {"err": err_code(e), "toks": [], "msg": str(e)[:200]}
@@ -185,7 +223,8 @@ def observe_template(text: str, ml: bool, debug: bool) -> Dict[str, Any]:
     try:
         with tag_re_mode(ml):
             try:
-                E.tb.Template(text, engine=E.engines[debug])
+                with watchdog():
+                    E.tb.Template(text, engine=E.engines[debug])
             except Exception as e:  # noqa: BLE001
                 exc = e
     finally:
@@ -357,6 +396,9 @@ def replay_rows(chk: Check, rows: List[Dict[str, Any]], template_every: int = 1)
     pend_obs: List[Dict[str, Any]] = []
     n_zone = 0
     for n, row in enumerate(rows):
+        if too_many_hangs():
+            chk.add("aborted_after_hangs", 1)
+            break
         text = text_of(row["chars"])
         nontrivial = len(row["toks"]) > 1
         chk.count(row["ids"], nontrivial=nontrivial)
@@ -417,25 +459,25 @@ def replay_rows(chk: Check, rows: List[Dict[str, Any]], template_every: int = 1)
         chk.add("replay_verdict_" + k, n)
 
 
-def handover_machine(chk: Check, maxsegs: int) -> None:
-    """MC_C09H: invariants of the loop hold without deviation; each deviation yields a TLC
-    counterexample that is replayed on the real code (design-level counterexample -> R vs A)."""
+def handover_tlc(maxsegs: int) -> Dict[str, Any]:
+    """MC_C09H (TLC only; may run in a thread): the invariants of the loop hold without deviation;
+    each deviation switched on alone must yield a counterexample."""
     w = workdir("c09h")
 
-    def cfg(name: str, n: int, devs: str) -> Path:
+    def cfg(name: str, n: int, devs: str, atoms: str, invs: List[str]) -> Path:
         p = w / name
-        p.write_text(f"SPECIFICATION HSpec\nCONSTANTS\n  MaxSegs = {n}\n  Devs = {devs}\n  ML = TRUE\n"
-                     "INVARIANT OffsetInv\nINVARIANT ResumeInv\nINVARIANT Refines\nINVARIANT PrefixInv\n")
+        p.write_text(f"SPECIFICATION HSpec\nCONSTANTS\n  MaxSegs = {n}\n  AtomSet = {atoms}\n  Devs = {devs}\n  ML = TRUE\n"
+                     + "".join(f"INVARIANT {i}\n" for i in invs))
         return p
-    r = tlc.require_ok(tlc.run("MC_C09H", str(cfg("h.cfg", maxsegs, "{}")), env=_java_env(w), workers=4),
-                       "MC_C09H without deviations")
-    chk.add("states", r.distinct)
-    chk.add("transitions", r.generated)
-    chk.add("handover_states", r.distinct)
-    cex = {}
-    cases, obss = [], []
+    allatoms = "{" + ",".join(str(a) for a in range(1, NATOMS + 1)) + "}"
+    r = tlc.require_ok(tlc.run("MC_C09H", str(cfg("h.cfg", maxsegs, "{}", allatoms,
+                                                  ["OffsetInv", "ResumeInv", "Refines", "PrefixInv"])),
+                               env=_java_env(w), workers=2), "MC_C09H without deviations")
+    res: Dict[str, Any] = {"states": r.distinct, "transitions": r.generated, "cex": {}}
     for d in DEVS:
-        r = tlc.run("MC_C09H", str(cfg(f"h_{d}.cfg", 2, '{"%s"}' % d)), env=_java_env(w), workers=1)
+        # observable invariants only, so that the counterexample shows in the token stream
+        r = tlc.run("MC_C09H", str(cfg(f"h_{d}.cfg", 3, '{"%s"}' % d, "{2,4,10,12,14,15,19}", ["Refines", "PrefixInv"])),
+                    env=_java_env(w), workers=1)
         if not r.violated:
             raise MachineryError(f"MC_C09H with deviation {d}: TLC found no counterexample\n" + r.out[-1500:])
         m = None
@@ -443,24 +485,32 @@ def handover_machine(chk: Check, maxsegs: int) -> None:
             pass
         if m is None:
             raise MachineryError(f"MC_C09H {d}: cannot parse counterexample")
-        ids = [int(x) for x in m.group(1).split(",") if x.strip()]
-        cex[d] = {"ids": ids, "violated": r.violated}
-        cases.append({"kind": "tlc-counterexample", "dev": d, "ids": ids, "ml": True, "channel": "parse"})
-    # chars of the counterexamples come from the specification (a tiny export run)
-    need = sorted({tuple(c["ids"]) for c in cases})
-    rows = {tuple(r_["ids"]): r_ for r_ in _rows_cache.get("rows", []) if tuple(r_["ids"]) in need}
-    for c in cases:
+        res["cex"][d] = {"ids": [int(x) for x in m.group(1).split(",") if x.strip()], "violated": r.violated}
+    return res
+
+
+def handover_replay(chk: Check, res: Dict[str, Any]) -> None:
+    """Design-level counterexamples (B with a deviation != A inside TLC) replayed on the real code:
+    only the R != A outcome of that replay counts, classified like every other trace."""
+    chk.add("states", res["states"])
+    chk.add("transitions", res["transitions"])
+    chk.add("handover_states", res["states"])
+    cex = res["cex"]
+    rows = {tuple(r_["ids"]): r_ for r_ in _rows_cache.get("rows", [])}
+    cases, obss = [], []
+    for d, c in cex.items():
         row = rows.get(tuple(c["ids"]))
         if row is None:
             raise MachineryError(f"counterexample {c['ids']} is not among the exported sources")
-        c["chars"] = row["chars"]
-        c["expect"] = row["toks"]
+        cases.append({"kind": "tlc-counterexample", "dev": d, "ids": c["ids"], "ml": True, "channel": "parse",
+                      "chars": row["chars"], "expect": row["toks"]})
         obss.append(observe_parse(text_of(row["chars"]), True))
     v = validate_batch([trace_line(i + 1, c, o) for i, (c, o) in enumerate(zip(cases, obss))], "c09hx")
     counters: Dict[str, int] = {}
     for i, c in enumerate(cases):
         c_v = v[i + 1]
         cex[c["dev"]]["real_code"] = c_v["kind"] + (":" + "+".join(c_v["devs"]) if c_v["devs"] else "")
+        cex[c["dev"]]["reproduced_on_real_code"] = c["dev"] in c_v["devs"]
         cex[c["dev"]]["text"] = text_of(c["chars"])
     apply_verdicts(chk, cases, obss, v, counters)
     chk.cov["design_counterexamples"] = cex
@@ -678,6 +728,9 @@ def deep_traces(chk: Check, ntraces: int, nmin: int, nmax: int) -> None:
     cases, obss = [], []
     msg_checked = 0
     for i in range(ntraces):
+        if too_many_hangs():
+            chk.add("aborted_after_hangs", 1)
+            break
         segs = g.source(nmin, nmax)
         x = rnd.random()
         channel = "parse" if x < 0.6 else ("tmpl-debug" if x < 0.8 else "tmpl-nodebug")
@@ -719,14 +772,46 @@ def deep_traces(chk: Check, ntraces: int, nmin: int, nmax: int) -> None:
 
 
 # ---------------------------------------------------------------- entry points
-def core(chk: Check, maxsegs: int, ntraces: int, nmin: int, nmax: int, workers: int = 4,
-         template_every: int = 1, machine: bool = True) -> None:
-    rows = export_cases(chk, maxsegs, workers)
-    _rows_cache["rows"] = rows
-    replay_rows(chk, rows, template_every)
+A14 = [2, 4, 5, 9, 10, 11, 12, 13, 14, 15, 17, 19, 22, 24]
+A8 = [2, 4, 10, 12, 14, 15, 19, 20]
+
+
+def core(chk: Check, exports: List[Tuple[int, Optional[List[int]]]], ntraces: int, nmin: int, nmax: int,
+         workers: int = 4, template_every: int = 1, machine: int = 2) -> None:
+    """exports: (MaxSegs, atom subset or None = all 25) per exhaustive TLC enumeration."""
+    import time
+    env().hangs = 0
+    ph = chk.cov.setdefault("phase_s", {})
+    fut = pool = None
     if machine:
-        handover_machine(chk, min(maxsegs, 3))
-    deep_traces(chk, ntraces, nmin, nmax)
+        from concurrent.futures import ThreadPoolExecutor
+        pool = ThreadPoolExecutor(max_workers=1)
+        fut = pool.submit(handover_tlc, machine)      # TLC runs while the rows are replayed
+    seen: set = set()
+    allrows: List[Dict[str, Any]] = []
+    bounds = []
+    for maxsegs, atoms in exports:
+        t = time.time()
+        rows = export_cases(chk, maxsegs, workers, atoms)
+        ph["tlc_enumerate_theorems_export"] = round(ph.get("tlc_enumerate_theorems_export", 0) + time.time() - t, 1)
+        t = time.time()
+        fresh = [r for r in rows if tuple(r["ids"]) not in seen]
+        seen.update(tuple(r["ids"]) for r in fresh)
+        allrows += fresh
+        bounds.append({"max_segments": maxsegs, "atoms": atoms or "all 25", "sources": len(rows), "new": len(fresh)})
+        replay_rows(chk, fresh, template_every)
+        ph["replay_and_classify"] = round(ph.get("replay_and_classify", 0) + time.time() - t, 1)
+    chk.cov["exhaustive_bounds"] = bounds
+    _rows_cache["rows"] = allrows
+    t = time.time()
+    if fut is not None:
+        handover_replay(chk, fut.result())
+        pool.shutdown()
+        ph["handover_machine_wait"] = round(time.time() - t, 1)
+    t = time.time()
+    if ntraces:
+        deep_traces(chk, ntraces, nmin, nmax)
+        ph["deep_traces"] = round(time.time() - t, 1)
     E = env()
     if E.channel_unavailable:
         chk.cov["channel_unavailable"] = dict(E.channel_unavailable)
@@ -737,11 +822,15 @@ def run(tier: str) -> int:
     chk = Check(PID, tier, "model_checking")
     quick = tier == "quick"
     if quick:
-        core(chk, maxsegs=3, ntraces=1200, nmin=4, nmax=12, workers=4)
+        JOBS[0] = 4
+        core(chk, [(3, None)], ntraces=1200, nmin=4, nmax=12, workers=4, machine=2)
     else:
-        core(chk, maxsegs=4, ntraces=12000, nmin=4, nmax=14, workers=8, template_every=7)
+        JOBS[0] = 8
+        core(chk, [(3, None), (4, A14), (5, A8)], ntraces=10000, nmin=4, nmax=14, workers=8,
+             template_every=3, machine=3)
     chk.cov["exhaustive"] = True
-    chk.cov["rule"] = ("every source of <= N atoms (25 concrete segments of specs/LexerAtoms.tla; N=3 quick, 4 thorough) "
+    chk.cov["rule"] = ("every source of <= N atoms (25 concrete segments of specs/LexerAtoms.tla; all 25 atoms to N=3; thorough also "
+                       "14 atoms to N=4 and 8 atoms to N=5, see exhaustive_bounds) "
                        "enumerated by TLC, theorems checked per source, each replayed on parse_template (+ patched "
                        "Template, debug on/off) under tag_re DOTALL and stock; seeded random sources of 4..14 grammar "
                        "segments validated by Trace_C09. Non-trivial = expected stream has more than one token; "
@@ -845,18 +934,17 @@ def _stock_lexer_when_not_debug():
 
 def _corrupted_traces_rejected() -> List[Tuple[str, bool]]:
     """Corrupt one field of a good recorded trace; TLC must reject it with the right clause."""
-    text_ids = [2, 4, 8, 1]          # x\ny {{ v }} {% x y %} ab : no quoted tag, so no deviation can explain anything
     rows = {tuple(r["ids"]): r for r in _rows_cache.get("rows", [])}
-    row = rows.get(tuple(text_ids[:3]))
+    row = rows.get((4, 2))           # {{ v }}x\ny : no quoted tag, so no deviation can explain anything
     if row is None:
         raise MachineryError("selftest needs the exported rows")
     base = {"ids": row["ids"], "chars": row["chars"], "ml": True}
     good = observe_parse(text_of(row["chars"]), True)
     out = []
     muts = {"lineno": lambda t: t[-1].__setitem__("l", t[-1]["l"] + 1),
-            "span": lambda t: (t[1].__setitem__("e", t[1]["e"] - 1), t[2].__setitem__("s", t[2]["s"] - 1)),
-            "contents": lambda t: t[1].__setitem__("c", t[1]["c"] + [32]),
-            "type": lambda t: t[1].__setitem__("t", "COMMENT"),
+            "span": lambda t: (t[0].__setitem__("e", t[0]["e"] - 1), t[1].__setitem__("s", t[1]["s"] - 1)),
+            "contents": lambda t: t[0].__setitem__("c", t[0]["c"] + [32]),
+            "type": lambda t: t[0].__setitem__("t", "COMMENT"),
             "count": lambda t: t.pop()}
     lines = [trace_line(1, base, good)]
     names = ["(uncorrupted)"]
@@ -878,7 +966,7 @@ def selftest(tier: str) -> int:
     env()
 
     def body(chk: Check) -> None:
-        core(chk, maxsegs=2, ntraces=350, nmin=4, nmax=10, workers=4, machine=False)
+        core(chk, [(2, None)], ntraces=350, nmin=4, nmax=10, workers=4, machine=0)
 
     probes = [
         ("positions-not-shifted-after-handover",
